@@ -53,7 +53,7 @@ WithPrintCb(r, cbs) ==
 
 Setups ==
   [froot : 0..2, fsec : {0, 1, 3}, fsub : {0, 1}, ft1 : {0, 3}, cbs : SUBSET {"i", "l", "fn", "t|x", "nd"},
-   target : {"root", "rootind", "sec", "opt:l", "opt:sec", "opt:t", "opt:nd"}]
+   target : {"root", "rootind", "sec", "opt:l", "opt:sec", "opt:t", "opt:nd", "sec9", "opt:sec12"}]
 
 Build(s) ==
   WithPrintCb(SetPff(SetPff(SetPff(SetPff(Root0, <<>>, s.froot), SEC, s.fsec), SUB, s.fsub), T1, s.ft1), s.cbs)
@@ -66,6 +66,9 @@ Output(r, s) ==
     [] s.target = "opt:sec" -> PrintOne(r.opts[8], 1)
     [] s.target = "opt:t"   -> PrintOne(r.opts[9], 0)
     [] s.target = "opt:nd"  -> PrintOne(r.opts[5], 0)
+    (* deep indentation: the entry points take any starting level *)
+    [] s.target = "sec9"    -> PrintCfg(r.opts[8].vals[1], 9)
+    [] s.target = "opt:sec12" -> PrintOne(r.opts[8], 12)
 
 Init == /\ setup \in Setups
         /\ root = Build(setup)
